@@ -328,7 +328,7 @@ class C11(Prop):
     props_file = "Props/C11.v"
     preamble = ("From Coq Require Import List ZArith QArith.\nImport ListNotations.\n"
                 "From PP Require Import Model.C11 Model.C11_inv.\nLocal Open Scope Z_scope.\n")
-    n_cases = (20, 150)
+    n_cases = (24, 150)
     design_ref = "DESIGN.md §5 C11 (certificate tie K, level P-method)"
     level_text = (
         "METHOD-LEVEL Coq theorems plus per-instance certificate checks, not a proof about the "
@@ -390,8 +390,15 @@ class C11(Prop):
             "discretized in 2 or 3 overlapping subproblems (partition_arguments); two (quick) resp. five "
             "(thorough) larger oracle-only grids incl. StructuredTetrahedralGrid([2,2,1]) and ([3,3,2]) "
             "split into 4 subproblems (faces discretized three and four times); three random linear "
-            "fields plus one constant field per case; non-trivial = at least 2 cells and a non-zero "
-            "gradient")
+            "fields plus one constant field per case; the documented optional parameters mpfa_eta (0, "
+            "1/4, 1/3, 1/2 as scalars) and mpfa_inverter (python / numba) on half of the cases; a quarter "
+            "of the cases are two-step update histories (full discretization, then partial "
+            "re-discretization of 1-3 cells through the update_discretization flag of discretize() or "
+            "through Mpfa.update_discretization()), plus oracle-only update histories on grids larger "
+            "than the stencil (CartGrid([7,7]) both routes in quick, CartGrid([6,6,6]) and "
+            "StructuredTriangleGrid([6,6]) in thorough) and a perturbed CartGrid([2,2,2]) with a "
+            "guaranteed Dirichlet/Neumann mix (non-zero Neumann data on hexahedron faces); "
+            "non-trivial = at least 2 cells and a non-zero gradient")
     trusted = ["geometry arrays (cell_centers, face_centers, face_normals), K, boundary flags/signs, the "
                "four matrices of the real run and the captured local matrices are passed to Coq as exact "
                "dyadic rationals; the captured rotated tensor of an embedded 2-D grid is symmetrised "
@@ -399,9 +406,13 @@ class C11(Prop):
     assumptions = ["constant symmetric positive definite K (checked per instance in Coq)",
                    "the code raises ValueError('Error in inversion of local linear systems') on an "
                    "exactly singular local system (degenerate grid): recorded as result, nothing claimed",
+                   "instances whose captured local systems have condition number > 1e10 are outside the "
+                   "left-inverse guard: no certificate, a failing oracle there is the open finding "
+                   "'singular-local-system'",
                    "left inverse of the local systems: hypothesis of C11_unique_exact; certified per "
                    "instance (approximate inverse, certificate iii) on a third of the small cases",
-                   "default eta, numba inverter"]
+                   "after an update history the stored matrices are required to satisfy the same exactness as after a "
+                   "full discretization (nothing changed in the grid or the parameters)"]
 
     # ------------------------------------------------------------------ generation
     def generate(self, rng, n, tier):
@@ -602,8 +613,8 @@ class C11(Prop):
         return f"check_local2 {d} {zi(L['nrows'])} {zi(len(L['A']))} {inst} {dcoo(L['A'])}"
 
     def coq_case(self, case, res):
-        if res.get("error") or case.get("oracle_only"):
-            return None
+        if res.get("error") or case.get("oracle_only") or res.get("max_cond", 0) > 1e10:
+            return None  # no matrices / too large / local system singular up to rounding (known finding)
         nb = sum(1 for k in res["kinds"] if k != 0)
         t = f"check_case2 {zi(res['nf'])} {zi(nb)} {self._inst(case, res)}"
         if res.get("local"):
